@@ -9,13 +9,13 @@
 (* changes the result.                                                         *)
 EXTENDS AssemblySem
 
-Primes == <<2, 3, 5, 7, 11, 13, 17, 19, 23, 29, 31, 37, 41, 43, 47, 53, 59, 61, 67, 71, 73, 79, 83, 89,
-            97, 101, 103, 107, 109, 113, 127, 131, 137, 139, 149, 151>>
-\* injective coding of (i, c, k, q) with i <= 3, c <= 2, k <= 2, q <= 2
-Code(i, c, k, q) == (((i - 1) * 2 + (c - 1)) * 2 + (k - 1)) * 2 + q
+Primes == <<2, 3, 5, 7, 11, 13, 17, 19, 23, 29, 31, 37, 41, 43, 47, 53, 59, 61, 67, 71, 73, 79, 83, 89>>
+\* injective coding of (i, k, q) with i <= 3, k <= 2, q <= 2 by distinct primes (trial: the first twelve, test: the
+\* next twelve, so every product phi_u * phi_v identifies (j, i, k, q)); a second component is shifted by 40
+Code(i, k, q) == ((i - 1) * 2 + (k - 1)) * 2 + q
 MkBasis(nb, nc, nel, nq, N, ed, off) ==
   [nb |-> nb, nel |-> nel, nq |-> nq, N |-> N, nc |-> nc, edofs |-> ed, sphi |-> 1, sdx |-> 1,
-   phi |-> [i \in 1..nb |-> [c \in 1..nc |-> [k \in 1..nel |-> [q \in 1..nq |-> Primes[off + Code(i, c, k, q)]]]]],
+   phi |-> [i \in 1..nb |-> [c \in 1..nc |-> [k \in 1..nel |-> [q \in 1..nq |-> Primes[off + Code(i, k, q)] + 40 * (c - 1)]]]],
    dx  |-> [k \in 1..nel |-> [q \in 1..nq |-> <<<<1, 2>>, <<3, 5>>>>[k][q]]]]
 
 \* cell->DOF tables edofs[i][k]; renaming DOFs is a symmetry of every clause, so the first cell is canonical
@@ -27,11 +27,11 @@ Tables(nb, nel, N) ==
   ELSE {[i \in 1..nb |-> <<c1[i], c2[i]>>] : c1 \in Canon(nb), c2 \in [1..nb -> 1..N]}
 
 \* coefficient field c (one component, scale 1), keyword given as DOF vector of the TRIAL basis, scalar alpha
-CVec(N) == [d \in 1..N |-> <<2, -1, 3, 1>>[d]]
+CVec(N) == [d \in 1..N |-> <<1, -1, 2, 1>>[d]]
 Fld(nel, nq) == [nc |-> 1, s |-> 1, val |-> <<[k \in 1..nel |-> [q \in 1..nq |-> <<<<2, 3>>, <<5, 4>>>>[k][q]]]>>]
 EnvOf(Bu) == [fld |-> [c |-> Fld(Bu.nel, Bu.nq),
                        d |-> [nc |-> Bu.nc, s |-> 1, val |-> InterpolateImpl(Bu, CVec(Bu.N))]],   \* form.py:110-112
-              prm |-> [alpha |-> 3]]
+              prm |-> [alpha |-> 2]]
 
 \* integrands (non-symmetric; linear in each argument)
 BilTerms(ncu) ==
@@ -41,11 +41,10 @@ BilTerms(ncu) ==
 LinTerm == <<"+", <<"*", <<"f", "c", 1>>, <<"v", 1>>>>, <<"*", <<"k", -2>>, <<"*", <<"f", "d", 1>>, <<"v", 1>>>>>>>>
 
 Quick == ~("MC_TIER" \in DOMAIN IOEnv /\ IOEnv.MC_TIER = "thorough")
-Shapes == {s \in [nbu : 1..3, nbv : 1..3, nel : 1..2, nq : 1..2, ncu : 1..2] : Quick => (s.ncu = 1 \/ s.nq = 2)}
-Cases == UNION {{[s |-> s, eu |-> eu, ev |-> ev, F |-> F] :
-                   eu \in Tables(s.nbu, s.nel, IF s.nel = 1 THEN 4 ELSE (IF Quick THEN 3 ELSE 4)),
-                   ev \in Tables(s.nbv, s.nel, IF s.nel = 1 THEN 4 ELSE (IF Quick THEN 3 ELSE 4)),
-                   F \in BilTerms(s.ncu)} : s \in Shapes}
+Mut   == IF "MC_MUT" \in DOMAIN IOEnv THEN IOEnv.MC_MUT ELSE "none"
+Shapes == {s \in [nbu : 1..3, nbv : 1..3, nel : 1..2, nq : 1..2, ncu : 1..2] :
+             Quick => ((s.ncu = 1 /\ s.nq = 2) \/ (s.ncu = 2 /\ s.nq = 1))}
+TableN(s) == IF Quick THEN 3 ELSE 4
 
 \* coefficient vectors for the pairing clause (all of {-1,0,1,2}^N is covered by bilinearity once the unit
 \* vectors and one dense vector agree; these are the ones evaluated)
@@ -57,16 +56,18 @@ vars == <<case, failed>>
 ClausesOf(cs) ==
   LET s   == cs.s
       Bu  == MkBasis(s.nbu, s.ncu, s.nel, s.nq, 4, cs.eu, 0)
-      Bv  == MkBasis(s.nbv, 1, s.nel, s.nq, 4, cs.ev, 24)
+      Bv  == MkBasis(s.nbv, 1, s.nel, s.nq, 4, cs.ev, 12)
       env == EnvOf(Bu)
       envv == EnvOf(Bv)
-      coo == SerialAssembleImpl(cs.F, Bu, Bv, env)
+      coo == SerialAssembleImplM(cs.F, Bu, Bv, env, Mut)
       A   == ToCSRImpl(coo)
       lcoo == LinearAssembleImpl(LinTerm, Bv, envv)
       b   == ToVectorImpl(lcoo)
       G   == <<"*", <<"f", "c", 1>>, <<"+", <<"f", "d", 1>>, <<"p", "alpha">>>>>>
       fn  == FunctionalImpl(G, NoField, NoField, 1, 1, Bu, env)
-  IN [BilinearRepresents |-> BilinearRepresents(A, cs.F, Bu, Bv, env) /\ MatDense(A) = BilDense(cs.F, Bu, Bv, env),
+      wf  == MatWF(A) /\ MatWF(CooAsMat(coo)) /\ A.shape = <<Bv.N, Bu.N>>
+  IN IF ~wf THEN [WellFormed |-> FALSE] ELSE
+     [WellFormed |-> TRUE, BilinearRepresents |-> BilinearRepresents(A, cs.F, Bu, Bv, env) /\ MatDense(A) = BilDense(cs.F, Bu, Bv, env),
       ElementalSumsToBil |-> BilinearRepresents(CooAsMat(coo), cs.F, Bu, Bv, env),
       RowsAreTest        |-> RowsAreTest(A, Bu, Bv),
       LinearRepresents   |-> LinearRepresents(b, LinTerm, Bv, envv),
@@ -83,7 +84,13 @@ ClausesOf(cs) ==
       \* as the field Interp(B, vector) -- in all three form types (they share env)
       ParamsEnterIdentically |-> env.fld.d.val = Interp(Bu, CVec(Bu.N))]
 
-Init == case \in Cases /\ failed = {"pending"}
+\* (nested quantifiers: TLC enumerates the cases without materialising their set)
+Few == {<<<<1, 2>>, <<2, 3>>, <<3, 1>>>>, <<<<1, 1>>, <<2, 2>>, <<3, 3>>>>, <<<<1, 3>>, <<2, 3>>, <<3, 2>>>>,
+        <<<<1, 2>>, <<1, 1>>, <<2, 1>>>>, <<<<1, 3>>, <<2, 1>>, <<2, 2>>>>, <<<<1, 2>>, <<2, 2>>, <<1, 3>>>>}
+TestTables(s) == IF Quick /\ s.nel = 2 /\ s.nbu = 3 /\ s.nbv = 3 THEN Few ELSE Tables(s.nbv, s.nel, TableN(s))
+Init == /\ \E s \in Shapes : \E eu \in Tables(s.nbu, s.nel, TableN(s)) : \E ev \in TestTables(s) :
+             \E F \in {G \in BilTerms(s.ncu) : Quick => G[1] = "+"} : case = [s |-> s, eu |-> eu, ev |-> ev, F |-> F]
+        /\ failed = {"pending"}
 Compute == /\ failed = {"pending"}
            /\ failed' = Failed(ClausesOf(case))
            /\ UNCHANGED case
